@@ -91,6 +91,8 @@ def check_case(case):
         cls.append("zero-field")
     if case.get("day_alone"):
         cls.append("day-without-month")
+    if case.get("sep"):
+        cls.append("numeric-sep:" + case["sep"])
     if both:
         cls.append("mode:both")
     present = case.get("present")
@@ -271,7 +273,12 @@ def cases(draw):
             f = {"D": ("00" if zero else "%02d" % d) if has["day"] else None, "M": "%02d" % m if has["month"] else None,
                  "Y": "%04d" % y if has["year"] else None}
             nums = [f[ch] for ch in order if f[ch]]
-            body = " ".join(toks + ["/".join(nums)] if nums else toks)
+            # the separator is drawn: '.' makes two fields look like a clock time ('15.03'), '-' like a signed number, ' ' like
+            # separate tokens — which reading wins is the parser's business, the filter/clock relations hold for all of them
+            sep = draw(st.sampled_from(["/", "/", ".", ".", "-", " "]))
+            body = " ".join(toks + [sep.join(nums)] if nums else toks)
+            if sep != "/":
+                c["sep"] = sep
             if nums and len(nums) == 2 or (len(nums) == 1 and not has["year"]):
                 # one or two bare numeric fields can be read as other parts (day vs month by the locale's order,
                 # a two-digit field as a year): the construction does not say which parts the string states
